@@ -30,8 +30,15 @@ theorem single_commit_handlers (c : Cfg) (s : State) (row : Row)
   | startTask i t => simp only [hStartTask]; (repeat' split) <;> simp
   | runTask i t =>
     simp only [hRunTask]
-    (repeat' split)
-    all_goals first | exact processResult_len .. | simp
+    split
+    · rename_i txns hg
+      unfold runTaskGuard at hg
+      simp only [] at hg
+      (repeat' split at hg) <;> simp at hg <;> subst hg <;> simp
+    · unfold runTaskCommit
+      simp only []
+      (repeat' split)
+      all_goals first | exact processResult_len .. | simp
   | completeTask i t st => simp only [hCompleteTask]; (repeat' split) <;> simp
   | completeStage i => exact absurd hm (h2 i)
   | skipStage i => simp only [hSkipStage]; (repeat' split) <;> simp
@@ -43,7 +50,7 @@ theorem single_commit_handlers (c : Cfg) (s : State) (row : Row)
 
 /-- StartStage commits at most twice (claim, plan). -/
 theorem startStage_at_most_two_commits (c : Cfg) (s : State) (id i r : Nat) : (hStartStage c s id i r).length ≤ 2 := by
-  unfold hStartStage startIfReady
+  unfold hStartStage hStartStageCore startIfReady
   simp only []
   (repeat' split) <;> simp
 
